@@ -41,10 +41,11 @@ Concat(ss) == IF ss = <<>> THEN <<>> ELSE Head(ss) \o Concat(Tail(ss))
 -----------------------------------------------------------------------------
 (* Body lines and the reference serialisation *)
 RECURSIVE LinesFrom(_, _, _)
-LinesFrom(b, i, cur) ==
+LinesFromV(b, i, cur) ==
     IF i > Len(b) THEN (IF cur = <<>> THEN <<>> ELSE <<cur>>)
     ELSE IF b[i] = LF THEN <<cur>> \o LinesFrom(b, i + 1, <<>>)
     ELSE LinesFrom(b, i + 1, Append(cur, b[i]))
+LinesFrom(b, i, cur) == LET G(c) == LET F(v) == LinesFromV(b, v, c) IN Strict(F, i) IN Strict(G, cur)
 BodyLines(b) == LinesFrom(b, 1, <<>>)
 WellFormedBody(b) == (IF b = <<>> THEN TRUE ELSE b[Len(b)] = LF) /\ \A i \in 1..Len(b) : b[i] # CR
 
@@ -59,16 +60,17 @@ Expected(b) == LET ls == WithBlank(BodyLines(b)) IN [i \in 1..Len(ls) |-> Line(l
 -----------------------------------------------------------------------------
 (* Reference server over a whole prefix *)
 RECURSIVE CrlfLines(_, _, _)
-CrlfLines(w, i, cur) ==
+CrlfLinesV(w, i, cur) ==
     IF i > Len(w) THEN <<>>                                   \* an unterminated tail yields nothing
     ELSE IF w[i] = CR /\ i < Len(w) /\ w[i + 1] = LF THEN <<cur>> \o CrlfLines(w, i + 2, <<>>)
     ELSE CrlfLines(w, i + 1, Append(cur, w[i]))
+CrlfLines(w, i, cur) == LET G(c) == LET F(v) == CrlfLinesV(w, v, c) IN Strict(F, i) IN Strict(G, cur)
 
 RSET == <<82, 83, 69, 84>>
 Reply(L) == IF L = RSET THEN 250 ELSE 500       \* the only pipelined commands the harness uses: RSET, or an unknown verb
 
 RECURSIVE DecLines(_, _, _, _)
-DecLines(ls, k, first, data) ==
+DecLinesV(ls, k, first, data) ==
     IF k > Len(ls) THEN <<>>
     ELSE LET L == ls[k] IN
       IF ~data THEN <<R(Reply(L))>> \o DecLines(ls, k + 1, first, FALSE)
@@ -76,6 +78,7 @@ DecLines(ls, k, first, data) ==
       ELSE LET c == IF L # <<>> /\ L[1] = DOT THEN Tail(L) ELSE L IN
            (IF first /\ c # <<>> /\ ~HasColon(c) THEN <<Line(<<>>)>> ELSE <<>>)
              \o <<Line(c)>> \o DecLines(ls, k + 1, FALSE, TRUE)
+DecLines(ls, k, first, data) == LET F(v) == DecLinesV(ls, v, first, data) IN Strict(F, k)
 
 Dec(w) == LET G(ls) == DecLines(ls, 1, TRUE, TRUE)
               F(v) == Strict(G, CrlfLines(v, 1, <<>>))
@@ -104,7 +107,8 @@ FeedV(m, b) ==
 Feed(m, b) == LET F(v) == FeedV(v, b) IN Strict(F, m)
 
 RECURSIVE FeedFrom(_, _, _)
-FeedFrom(m, s, i) == IF i > Len(s) THEN m ELSE FeedFrom(Feed(m, s[i]), s, i + 1)
+FeedFromV(m, s, i) == IF i > Len(s) THEN m ELSE FeedFrom(Feed(m, s[i]), s, i + 1)
+FeedFrom(m, s, i) == LET F(v) == FeedFromV(m, s, v) IN Strict(F, i)
 FeedAll(m, s) == LET F(v) == FeedFrom(m, v, 1) IN Strict(F, s)
 
 -----------------------------------------------------------------------------
@@ -152,7 +156,7 @@ Deliver(k) ==
 (* The client's sentMail callback fired with these codes (exactly one 250) once everything was delivered. *)
 End ==
     /\ cfg.mode = "client" /\ sent /\ consumed = Len(wire)
-    /\ last' = [e |-> "end", sent |-> <<250>>]
+    /\ last' = [e |-> "end", codes |-> <<250>>]
     /\ UNCHANGED <<cfg, body, wire, sent, consumed, mach, out>>
 
 -----------------------------------------------------------------------------
@@ -166,6 +170,8 @@ NoLoss     == (cfg.mode = "client" /\ sent) => IsPrefix(out, Expected(body))    
 EndOnlyAtTerminator ==                                                          \* not before the client's final "."
     (cfg.mode = "client" /\ sent /\ consumed < Len(wire)) => ~("eom" \in Kinds(out) \/ "r" \in Kinds(out))
 EndToEnd   == (cfg.mode = "client" /\ sent /\ consumed = Len(wire)) => out = Expected(body)
+
+RefInvSync == consumed = Len(wire) => out = Dec(wire)     \* RefInv where everything sent has been consumed
 
 Inv == RefInv /\ SenderInv /\ NoLoss /\ EndOnlyAtTerminator /\ EndToEnd
 =============================================================================
